@@ -3,7 +3,9 @@ interpreter (c05_interp) on the special-value lattice plus random inputs.
 
 python / numpy : exec(<target header> + emitted text) in a fresh namespace
 cpp            : all emitted functions of this worker + harness wrappers are compiled with
-                 `g++ -O0 -ffp-contract=off -shared -fPIC` into one shared object per batch under
+                 `g++ -O0 -ffp-contract=off -frounding-math -shared -fPIC` (-frounding-math: libm calls on
+                 constants are evaluated by glibc at run time, not folded by the compiler) into one shared
+                 object per batch under
                  <workdir>, loaded through ctypes; a compile error is traced back to the emitted
                  function(s) by line number and the rest is recompiled.
 Counterfactual variants (used only to *attribute* a failure to a cause, never to excuse it):
@@ -137,6 +139,8 @@ def typed_constants(tname):
         except Exception:  # noqa: BLE001
             return s
         if tname == "cpp":
+            if typ in ("float", "double") and re.fullmatch(r"-?\d+", s):
+                s = repr(float(s))  # the value converted to the type of `like`, then printed
             return f"(({typ})({s}))"
         return f"{typ}({s})"
 
@@ -318,7 +322,16 @@ def prepare(case, g, target, tname, fname, prints, cfg):
                 r, _ = I.evaluate(g, vals)
             expects.append(r)
     except interp.Unsupported as ex:
+        # the interpreter cannot evaluate this graph: still compile and load the emitted source
         out["unsupported"] = str(ex)
+        try:
+            argtys = [P.get_type(a) for a in g.operands[1:-1]]
+            retty = P.get_type(g.operands[-1])
+            if all(t in CTYPE for t in argtys + [retty]):
+                _cpp_jobs.append(dict(id=case["id"], fname=fname, variants={"": text}, argtys=argtys, retty=retty, argtypes=[],
+                                      inputs=[], expects=[], out=out))
+        except Exception:  # noqa: BLE001
+            pass
         return out
     variants = {"": text}
     has_const = "constant" in {e.kind for e in _walk(g)}
@@ -360,7 +373,7 @@ def compile_unit(workdir, tag, pieces):
         so = os.path.join(workdir, f"{tag}.so")
         with open(src, "w") as f:
             f.write("\n".join(lines) + "\n")
-        p = subprocess.run(["g++", "-O0", "-ffp-contract=off", "-shared", "-fPIC", "-w", src, "-o", so],
+        p = subprocess.run(["g++", "-O0", "-ffp-contract=off", "-frounding-math", "-shared", "-fPIC", "-w", src, "-o", so],
                            capture_output=True, text=True, timeout=900)
         if p.returncode == 0:
             return so, failed
